@@ -2,6 +2,7 @@ package main
 
 import (
 	"fmt"
+	"sort"
 	"strings"
 
 	"golang.org/x/tools/go/ssa"
@@ -11,232 +12,217 @@ func init() {
 	registry["C18"] = []func(*Report){ruleC18}
 }
 
+// ctxsOf: the context of fn and the contexts of the callees analysed as part of it.
+func ctxsOf(a *Analysis, top *FuncCtx) []*FuncCtx {
+	pfx := a.P.FnName(top.Fn) + "/"
+	var out []*FuncCtx
+	for _, fc := range a.ctxs {
+		if fc == top || strings.HasPrefix(fc.prefix, pfx) {
+			out = append(out, fc)
+		}
+	}
+	sort.Slice(out, func(i, j int) bool { return out[i].prefix < out[j].prefix })
+	return out
+}
+
+type siteCall struct {
+	FC   *FuncCtx
+	Call *ssa.Call
+}
+
+func callsAcross(ctxs []*FuncCtx, pred func(*ssa.Call) bool) []siteCall {
+	var out []siteCall
+	for _, fc := range ctxs {
+		for _, b := range fc.Fn.Blocks {
+			for _, in := range b.Instrs {
+				if c, ok := in.(*ssa.Call); ok && pred(c) {
+					out = append(out, siteCall{fc, c})
+				}
+			}
+		}
+	}
+	return out
+}
+
+func nilAtomOf(sc siteCall) string {
+	if sc.Call.Call.Signature().Results().Len() == 1 {
+		return "isnil(" + sc.FC.AP(sc.Call) + ")"
+	}
+	return fmt.Sprintf("isnil(%s#%d)", sc.FC.AP(sc.Call), sc.Call.Call.Signature().Results().Len()-1)
+}
+
 func ruleC18(r *Report) {
 	p := r.P
 	sc := NewScope(p, r.Tier)
 	sr := findSigRoles(p)
 	r.Trusted("goxmldsig v1.4.0 (signature cryptography)", "etree v1.5.0", "xml-roundtrip-validator v0.1.0")
 	r.NotDecided("signature cryptography; redirect-binding detached signatures (an enveloped signature is required, as the statement says)")
-	r.Assume("guard atoms are treated as independent propositions")
-	r.Rule("C18.sig-required", "in both logout validators every nil return is dominated by the nil edge of the signature validator applied to the root of the document that is then unmarshalled (an absent signature is a non-nil error, hence a reject)", 2)
-	r.Rule("C18.table", "field rows: Destination != SloURL => reject; now > IssueInstant + 1*MaxIssueDelay => reject; Issuer absent or different => reject; status != Success => reject; the field validator's verdict is returned unchanged", 6)
-	r.Rule("C18.accept", "a response meeting all field conditions is not rejected by the field validator", 1)
-	r.Rule("C18.siblings", "the POST and redirect variants pass the same gates in the same order: round-trip validation, parse, root check, signature, unmarshal, field validation (redirect additionally inflates through the bounded reader)", 8)
-	r.Rule("C18.xrv", "the bytes parsed are the bytes validated by the round-trip validator", 2)
-	r.Rule("C18.inflate", "the redirect variant inflates only through the bounded reader (no raw flate.NewReader on the logout path)", 1)
-	r.Rule("C18.nil", "no dereference of an absent Issuer or a rootless document on the logout path", 3)
+	r.Assume("guard atoms are treated as independent propositions; library helpers of the root package are analysed as part of the entry point (inlining bound 3)")
+	r.Rule("C18.sig-required", "a logout response is reported valid only under the nil result of the signature validator applied to the root of the parsed document, which is the element that is unmarshalled (an absent signature is a non-nil error, hence a reject)", 4)
+	r.Rule("C18.table", "field rows: Destination != SloURL => reject; now > IssueInstant + 1*MaxIssueDelay => reject; Issuer absent or different => reject; status != Success => reject — for both encodings", 10)
+	r.Rule("C18.accept", "a signed response meeting all field conditions is reported valid", 2)
+	r.Rule("C18.xrv", "the bytes parsed are the bytes the round-trip validator accepted; both encodings", 2)
+	r.Rule("C18.inflate", "the redirect variant inflates only through the bounded reader", 1)
+	r.Rule("C18.nil", "no dereference of an absent Issuer or a rootless document on the logout path", 1)
 
-	entries := funcsUnmarshallingInto(p, "LogoutResponse")
-	var fns []*ssa.Function
-	for _, f := range entries {
-		if f.Signature.Recv() != nil && typeIs(f.Signature.Recv().Type(), modPath, "ServiceProvider") && f.Object() != nil && f.Object().Exported() {
-			fns = append(fns, f)
-		}
+	opaque := map[*ssa.Function]bool{}
+	for _, v := range sr.Validators {
+		opaque[v] = true
 	}
-	if len(fns) != 2 {
-		panic(unresolved{fmt.Sprintf("role logout-response validators (exported ServiceProvider methods unmarshalling a LogoutResponse): found %d", len(fns))})
+	for f := range sr.Unmarshal {
+		opaque[f] = true
 	}
-	inline := validatorInline(p, sc)
-	var fieldValidator *ssa.Function
-	gates := map[*ssa.Function][]string{}
-	for _, fn := range fns {
+	for f := range sr.Finders {
+		opaque[f] = true
+	}
+	for _, f := range p.FuncsCalling(decompressors...) {
+		opaque[f] = true
+	}
+	policy := func(f *ssa.Function) bool {
+		return p.InLibrary(f) && f.Pkg != nil && f.Pkg.Pkg.Path() == modPath && !opaque[f] && errIndex(f) >= 0
+	}
+	entries := []*ssa.Function{
+		p.MustFunc("saml", "ServiceProvider", "ValidateLogoutResponseForm"),
+		p.MustFunc("saml", "ServiceProvider", "ValidateLogoutResponseRedirect"),
+	}
+	allFns := map[*ssa.Function]bool{}
+	for _, fn := range entries {
 		a := NewAnalysis(p)
+		a.Inline = policy
 		B := a.B
-		fc := a.Ctx(fn)
-		fc.ensureConds()
-		r.Fn(p.FnName(fn))
-		vcs := validatorCalls(fc, sr)
-		// the unmarshal call and its element
-		var um *ssa.Call
-		for _, b := range fn.Blocks {
-			for _, in := range b.Instrs {
-				if c, ok := in.(*ssa.Call); ok {
-					if scf := c.Call.StaticCallee(); scf != nil && sr.Unmarshal[scf] {
-						um = c
-					}
-				}
-			}
+		t := NewTable(r, a, fn)
+		accept := B.Not(t.Reject)
+		ctxs := ctxsOf(a, t.FC)
+		for _, fc := range ctxs {
+			allFns[fc.Fn] = true
+			r.Fn(p.FnName(fc.Fn))
 		}
-		if um == nil {
-			r.Undecided("C18.sig-required", p.FnName(fn)+": unmarshal call", p.Pos(fn.Pos()), "not found")
-			continue
+		isV := func(c *ssa.Call) bool {
+			for _, v := range sr.Validators {
+				if c.Call.StaticCallee() == v {
+					return true
+				}
+			}
+			return false
 		}
-		elAP := fc.AP(um.Call.Args[0])
-		// every nil return
-		nRet := 0
-		for _, ret := range fc.Returns() {
-			ev := Resolve(ret.Results[0])
-			cons := fmt.Sprintf("%s: return %s only after the signature on %s verified", p.FnName(fn), fc.AP(ev), elAP)
-			// which returns can be nil? constant nil, or the field validator's result
-			mayNil := isNilConst(ev)
-			var fvCall *ssa.Call
-			if c, ok := ev.(*ssa.Call); ok {
-				if scf := c.Call.StaticCallee(); scf != nil && inline(scf) {
-					mayNil = true
-					fvCall = c
-					fieldValidator = scf
-				}
-			}
-			if !mayNil {
-				// must be provably non-nil
-				if fc.NonNil(ev) != B.True && !(B.Implies(fc.Cond(ret.Block()), fc.NonNil(ev))) {
-					r.Bad("C18.sig-required", cons, p.InstrPos(ret), "an error value that may be nil is returned before the signature check")
-				}
-				continue
-			}
-			nRet++
-			if isNilConst(ev) {
-				// a literal nil result must lie under the nil edge of the field validator
-				okF := false
-				for _, b2 := range fn.Blocks {
-					for _, in2 := range b2.Instrs {
-						if c2, ok := in2.(*ssa.Call); ok {
-							if scf := c2.Call.StaticCallee(); scf != nil && inline(scf) {
-								nm := "isnil(" + fc.AP(c2) + ")"
-								if B.HasVar(nm) && fc.Implied(ret.Block(), B.Var(nm)) {
-									okF = true
-								}
-							}
-						}
-					}
-				}
-				r.Check(okF, "C18.table", fmt.Sprintf("%s: literal nil result only after the field validator accepted", p.FnName(fn)), p.InstrPos(ret),
-					"dominated by field validator == nil", "nil is returned without (or regardless of) the field validator's verdict")
-			}
-			ok := false
-			for _, vc := range vcs {
-				if vc.ElAP == elAP && B.HasVar(vc.Atom) && fc.Implied(ret.Block(), B.Var(vc.Atom)) {
-					ok = true
-				}
-			}
-			r.Check(ok, "C18.sig-required", cons, p.InstrPos(ret), "dominated by validator("+elAP+") == nil", "a nil result is reachable without a verified enveloped signature on the unmarshalled root")
-			if fvCall != nil {
-				// the validated object is the one unmarshalled
-				tgt := um.Call.Args[1]
-				if mi, ok := tgt.(*ssa.MakeInterface); ok {
-					tgt = mi.X
-				}
-				same := len(fvCall.Call.Args) >= 2 && fvCall.Call.Args[1] == tgt
-				r.Check(same, "C18.table", fmt.Sprintf("%s: field validator applied to the unmarshalled response, verdict returned unchanged", p.FnName(fn)), p.InstrPos(ret),
-					"return validator(&resp)", "the field validator is applied to a different object than the one unmarshalled")
-			}
-		}
-		if nRet == 0 {
-			r.Bad("C18.sig-required", p.FnName(fn)+": success exits", p.Pos(fn.Pos()), "no return that can be nil was recognised")
-		}
-		// sibling gates in dominance order
-		var seq []string
-		type gate struct {
-			name string
-			call func(c *ssa.Call) bool
-		}
-		order := []gate{
-			{"base64", func(c *ssa.Call) bool { return calleeIs(c, "(*encoding/base64.Encoding).DecodeString") }},
-			{"xrv", func(c *ssa.Call) bool { return calleeIs(c, "github.com/mattermost/xml-roundtrip-validator.Validate") }},
-			{"parse", func(c *ssa.Call) bool { return calleeIs(c, "(*github.com/beevik/etree.Document).ReadFromBytes") }},
-			{"signature", func(c *ssa.Call) bool {
-				for _, v := range sr.Validators {
-					if c.Call.StaticCallee() == v {
-						return true
-					}
-				}
+		vcalls := callsAcross(ctxs, isV)
+		ucalls := callsAcross(ctxs, func(c *ssa.Call) bool {
+			scf := c.Call.StaticCallee()
+			if scf == nil || !sr.Unmarshal[scf] || len(c.Call.Args) < 2 {
 				return false
-			}},
-			{"unmarshal", func(c *ssa.Call) bool { scf := c.Call.StaticCallee(); return scf != nil && sr.Unmarshal[scf] }},
-			{"fields", func(c *ssa.Call) bool { scf := c.Call.StaticCallee(); return scf != nil && inline(scf) }},
+			}
+			if mi, ok := c.Call.Args[1].(*ssa.MakeInterface); ok {
+				return typeIs(mi.X.Type(), modPath, "LogoutResponse")
+			}
+			return false
+		})
+		cons := t.name + ": valid only under a verified enveloped signature on the unmarshalled root"
+		switch {
+		case len(ucalls) != 1:
+			r.Bad("C18.sig-required", cons, p.Pos(fn.Pos()), fmt.Sprintf("%d unmarshal sites of a LogoutResponse on this path (expected one)", len(ucalls)))
+		default:
+			u := ucalls[0]
+			elAP := u.FC.AP(u.Call.Call.Args[0])
+			sig := B.False
+			var seen []string
+			for _, vc := range vcalls {
+				ei := elementParam(vc.Call.Call.StaticCallee())
+				if ei < 0 {
+					continue
+				}
+				vap := vc.FC.AP(vc.Call.Call.Args[ei])
+				seen = append(seen, vap)
+				if vap == elAP && B.HasVar(nilAtomOf(vc)) {
+					sig = B.Or(sig, B.Var(nilAtomOf(vc)))
+				}
+			}
+			ok := sig != B.False && B.Implies(accept, sig)
+			why := "a nil result is reachable without the signature validator having accepted the unmarshalled root"
+			if sig == B.False {
+				why = fmt.Sprintf("the signature validator is applied to %v, the element unmarshalled is %s", seen, elAP)
+			} else if !ok {
+				why += ": e.g. under " + firstCube(B, B.And(accept, B.Not(sig)))
+			}
+			r.Check(ok, "C18.sig-required", cons, p.InstrPos(u.Call), "accept => validator("+elAP+") == nil", why)
+			r.Check(strings.HasSuffix(elAP, ".Root()"), "C18.sig-required", t.name+": the unmarshalled element is the document root", p.InstrPos(u.Call), elAP, "the element unmarshalled is "+elAP+", not the root of the parsed document")
+			// the unmarshal itself must have succeeded
+			ua := nilAtomOf(u)
+			r.Check(B.HasVar(ua) && B.Implies(accept, B.Var(ua)), "C18.sig-required", t.name+": valid only if the response unmarshalled", p.InstrPos(u.Call), "accept => unmarshal == nil", "a response that failed to unmarshal can be reported valid")
 		}
-		var prev *ssa.Call
-		for _, g := range order {
-			var found *ssa.Call
-			for _, b := range fn.Blocks {
-				for _, in := range b.Instrs {
-					if c, ok := in.(*ssa.Call); ok && g.call(c) {
-						found = c
+
+		// field rows
+		dest := t.One("eq", sfx("LogoutResponse.Destination"), exact("ServiceProvider.SloURL.String()"))
+		issNil := t.One("isnil", sfx("LogoutResponse.Issuer"))
+		issEq := t.One("eq", sfx("LogoutResponse.Issuer.Value"), exact("ServiceProvider.IDPMetadata.EntityID"))
+		status := t.One("eq", sfx("LogoutResponse.Status.StatusCode.Value"), has("StatusSuccess"))
+		rw := func(what, atom, missing string, pos bool) {
+			if atom == "" {
+				t.Row("C18.table", what, B.True, missing)
+				return
+			}
+			f := t.V(atom)
+			if !pos {
+				f = B.Not(f)
+			}
+			t.Row("C18.table", what, f)
+		}
+		rw("Destination differs from the SP's logout URL", dest, "Destination == SloURL.String()", false)
+		rw("Issuer differs from the IdP entity ID", issEq, "Issuer.Value == IDPMetadata.EntityID", false)
+		rw("Issuer absent", issNil, "Issuer == nil", true)
+		rw("status is not Success", status, "Status.StatusCode.Value == StatusSuccess", false)
+		tm := t.TimeRow("C18.table", "LogoutResponse.IssueInstant", +1, "MaxIssueDelay", 1, func(s string) bool {
+			return strings.Contains(s, "time.Now#") || strings.Contains(s, "TimeNow") || s == "now"
+		}, nil)
+		for _, ai := range t.atomsIn() {
+			if ai.Kind == "before" && !t.known[ai.Name] {
+				r.Bad("C18.table", fmt.Sprintf("%s: extra time comparison %s", t.name, ai.Name), p.InstrPos(ai.Instr), "a time-dependent reject outside the documented window")
+			}
+		}
+		good := map[string]bool{dest: true, issNil: false, issEq: true, status: true, tm: false}
+		for _, ai := range t.atomsIn() {
+			if ai.Kind == "isnil" && strings.HasSuffix(ai.Args[0], ".Root()") {
+				good[ai.Name] = false
+				t.Know(ai.Name)
+			}
+			if ai.Kind == "isnil" && strings.HasPrefix(ai.Args[0], "r:") {
+				t.Know(ai.Name)
+			}
+		}
+		t.Accept("C18.accept", "signed, parsed and all field conditions met", good, []string{".Destination", ".Issuer", ".StatusCode", "IssueInstant", "SloURL"})
+		t.Unknown("C18.table", []string{".Destination", ".Issuer", ".StatusCode", "SloURL"})
+
+		// xrv: accept => validator(bytes) == nil, and the bytes parsed are those bytes
+		xcalls := callsAcross(ctxs, func(c *ssa.Call) bool {
+			return calleeIs(c, "github.com/mattermost/xml-roundtrip-validator.Validate")
+		})
+		pcalls := callsAcross(ctxs, func(c *ssa.Call) bool {
+			return calleeIs(c, "(*github.com/beevik/etree.Document).ReadFromBytes") || calleeIs(c, "(*github.com/beevik/etree.Document).ReadFromString")
+		})
+		xc := t.name + ": parsed bytes passed the round-trip validator"
+		okX := false
+		detail := fmt.Sprintf("%d validator calls, %d parse calls", len(xcalls), len(pcalls))
+		if len(pcalls) == 1 {
+			pb := pcalls[0].FC.AP(pcalls[0].Call.Call.Args[1])
+			for _, x := range xcalls {
+				if wb := readerBytes(x.Call.Call.Args[0]); wb != nil && x.FC.AP(wb) == pb {
+					na := nilAtomOf(x)
+					if B.HasVar(na) && B.Implies(accept, B.Var(na)) {
+						okX = true
+						detail = "accept => xrv.Validate(" + pb + ") == nil"
 					}
 				}
 			}
-			cons := fmt.Sprintf("%s: gate %s present and ordered", p.FnName(fn), g.name)
-			if found == nil {
-				r.Bad("C18.siblings", cons, p.Pos(fn.Pos()), "gate missing")
-				continue
+			if !okX {
+				detail = "the document is parsed from " + pb + " without that value having passed the round-trip validator on every accepting path"
 			}
-			okOrder := prev == nil || prev.Block() == found.Block() || prev.Block().Dominates(found.Block())
-			// each earlier gate's failure must be a reject before this gate: the nil edge of prev dominates found
-			if prev != nil && okOrder {
-				var nm string
-				if prev.Call.Signature().Results().Len() == 1 {
-					nm = "isnil(" + fc.AP(prev) + ")"
-				} else {
-					nm = "isnil(" + fc.AP(prev) + "#1)"
-				}
-				if B.HasVar(nm) && !fc.Implied(found.Block(), B.Var(nm)) {
-					okOrder = false
-				}
-			}
-			r.Check(okOrder, "C18.siblings", cons, p.InstrPos(found), "dominated by the success of the previous gate", "gate is reachable although the previous gate failed or was skipped")
-			seq = append(seq, g.name)
-			prev = found
 		}
-		gates[fn] = seq
-	}
-	if len(fns) == 2 {
-		r.Check(strings.Join(gates[fns[0]], ",") == strings.Join(gates[fns[1]], ","), "C18.siblings", "both variants pass the same gate sequence", "-",
-			strings.Join(gates[fns[0]], " -> "), fmt.Sprintf("%v vs %v", gates[fns[0]], gates[fns[1]]))
+		r.Check(okX, "C18.xrv", xc, p.Pos(fn.Pos()), detail, detail)
 	}
 
-	// field table
-	if fieldValidator == nil {
-		panic(unresolved{"role logout field validator (error-only function with a *LogoutResponse parameter)"})
-	}
-	a := NewAnalysis(p)
-	B := a.B
-	t := NewTable(r, a, fieldValidator)
-	dest := t.One("eq", sfx("LogoutResponse.Destination"), exact("ServiceProvider.SloURL.String()"))
-	issNil := t.One("isnil", sfx("LogoutResponse.Issuer"))
-	issEq := t.One("eq", sfx("LogoutResponse.Issuer.Value"), exact("ServiceProvider.IDPMetadata.EntityID"))
-	status := t.One("eq", sfx("LogoutResponse.Status.StatusCode.Value"), has("StatusSuccess"))
-	if dest == "" {
-		t.Row("C18.table", "Destination differs from the SP's logout URL", B.True, "Destination == SloURL.String()")
-	} else {
-		t.Row("C18.table", "Destination differs from the SP's logout URL", B.Not(t.V(dest)))
-	}
-	if issEq == "" {
-		t.Row("C18.table", "Issuer differs from the IdP entity ID", B.True, "Issuer.Value == IDPMetadata.EntityID")
-	} else {
-		t.Row("C18.table", "Issuer differs from the IdP entity ID", B.Not(t.V(issEq)))
-	}
-	if issNil == "" {
-		t.Row("C18.table", "Issuer absent", B.True, "Issuer == nil")
-	} else {
-		t.Row("C18.table", "Issuer absent", t.V(issNil))
-	}
-	if status == "" {
-		t.Row("C18.table", "status is not Success", B.True, "Status.StatusCode.Value == StatusSuccess")
-	} else {
-		t.Row("C18.table", "status is not Success", B.Not(t.V(status)))
-	}
-	tm := t.TimeRow("C18.table", "LogoutResponse.IssueInstant", +1, "MaxIssueDelay", 1, func(s string) bool {
-		return strings.Contains(s, "time.Now#") || strings.Contains(s, "TimeNow") || s == "now"
-	}, nil)
-	for _, ai := range t.atomsIn() {
-		if ai.Kind == "before" && !t.known[ai.Name] {
-			r.Bad("C18.table", fmt.Sprintf("%s: extra time comparison %s", t.name, ai.Name), p.InstrPos(ai.Instr), "a time-dependent reject outside the documented window")
-		}
-	}
-	good := map[string]bool{dest: true, issNil: false, issEq: true, status: true, tm: false}
-	t.Accept("C18.accept", "all field conditions are met", good, []string{".Destination", ".Issuer", ".StatusCode", "IssueInstant", "SloURL"})
-	t.Unknown("C18.table", []string{".Destination", ".Issuer", ".StatusCode", "SloURL"})
-
-	// shared rules restricted to the logout path
-	logoutFns := map[*ssa.Function]bool{fieldValidator: true}
-	for _, f := range fns {
-		logoutFns[f] = true
-	}
-	checkXRV(r, sc, "C18.xrv", sortedFns(p, logoutFns))
-	nInfl := 0
-	for _, f := range sortedFns(p, logoutFns) {
-		for _, ci := range callsTo(f, "compress/flate.NewReader") {
-			r.Bad("C18.inflate", p.FnName(f)+": raw flate.NewReader", p.InstrPos(ci.(ssa.Instruction)), "unbounded inflate of a peer-provided stream")
+	// inflate: no raw decompressor on the logout path; the redirect variant reads through the bounded reader
+	for _, f := range sortedFns(p, allFns) {
+		for _, ci := range callsTo(f, decompressors...) {
+			r.Bad("C18.inflate", p.FnName(f)+": raw decompressing reader", p.InstrPos(ci.(ssa.Instruction)), "unbounded inflate of a peer-provided stream")
 		}
 		for _, ci := range callsTo(f, "io.ReadAll") {
 			arg := ci.Common().Args[0]
@@ -247,16 +233,14 @@ func ruleC18(r *Report) {
 				arg = ci2.X
 			}
 			if c, ok := arg.(*ssa.Call); ok {
-				if scf := c.Call.StaticCallee(); scf != nil && p.InLibrary(scf) && len(callsTo(scf, "compress/flate.NewReader")) > 0 {
-					nInfl++
+				if scf := c.Call.StaticCallee(); scf != nil && p.InLibrary(scf) && len(callsTo(scf, decompressors...)) > 0 {
 					r.OK("C18.inflate", p.FnName(f)+": inflates through "+shortFn(scf), p.InstrPos(ci.(ssa.Instruction)), "bounded inflater (its Read guard is judged by C09.inflate)")
 				}
 			}
 		}
 	}
-	_ = nInfl
 	nr := NewNilRules(r, NewAnalysis(p), sc)
-	nr.Check(sortedFns(p, logoutFns), "C18.nil", "C18.nil")
+	nr.Check(sortedFns(p, allFns), "C18.nil", "C18.nil")
 }
 
 func calleeIs(c *ssa.Call, name string) bool {
